@@ -198,6 +198,19 @@ def find_item(src, path, m=None, lo=0, hi=None, nth=None):
     if not cands:
         raise ScanError("item not found: %r" % path[0])
     if k is None and len(cands) > 1:
+        if len(path) > 1:
+            # several blocks with the same header (e.g. two `impl T {}`): take the one in which the
+            # rest of the path resolves, if exactly one does
+            hits = []
+            for c in cands:
+                if c.body_open < 0:
+                    continue
+                try:
+                    hits.append(find_item(src, path[1:], m, c.body_open + 1, c.body_close))
+                except ScanError:
+                    pass
+            if len(hits) == 1:
+                return hits[0]
         raise ScanError("ambiguous item %r (%d matches)" % (path[0], len(cands)))
     it = cands[k or 0]
     if len(path) == 1:
